@@ -1843,7 +1843,7 @@ bn_is_bit_set(bn_p bn, size_t bit) {
 		return (0);
 #if 1
 	if (BN_DIGIT_BITS > bit)
-		return (0 != (bn->num[0] & (((bn_digit_t)1) << bit)));
+		return (0 != bn->digits && 0 != (bn->num[0] & (((bn_digit_t)1) << bit)));
 #endif
 	if ((bn->digits * BN_DIGIT_BITS) <= bit)
 		return (0);
